@@ -145,6 +145,20 @@ def check_kernel(rep, op, cyf):
         n += 1
         rep.check(nem == ninc and order_ok and not pend, "R-C08-c", "%s@%d" % (where, line), "%s emission bookkeeping" % cons,
                   "%d emission(s), each followed by one result_len += 1" % nem, "%d emission(s) but %d increment(s) of the output length" % (nem, ninc))
+    # a cdef helper of the module that reads / writes array elements, called from this kernel (e.g. a block copy replacing
+    # the tail loops): the schema below does not see what it does - tails and prelude results are then not decided
+    helper_calls = []
+    try:
+        cdefs = {nm for nm, nd in cyfront.cfunctions(cyfront.load()) if any(tname(x) in ("MemoryViewIndexNode", "MemoryViewSliceNode", "BufferIndexNode", "SliceIndexNode") for x in walk(nd.body))}
+    except Exception:
+        cdefs = set()
+    for x in walk(cyf.node.body):
+        if tname(x) == "SimpleCallNode" and tname(x.function) == "NameNode" and x.function.name in cdefs:
+            helper_calls.append(x)
+    if helper_calls:
+        rep.undecided("R-C08-a", "%s@%d" % (where, helper_calls[0].pos[1]), "%s: tail copies and shortcut results" % op,
+                      "the kernel calls %s(), a cdef helper that touches array elements: outside the decision-table schema" % helper_calls[0].function.name)
+        return n
     # tails
     tails, unk = k.tails(loop)
     got = set(s for s, _ in tails)
@@ -262,6 +276,11 @@ def check_wrappers(rep, prog, wk, kernel_ops):
                             rep.undecided("R-C08-d", where, cons, "more than one return on a fully decided path")
                             continue
                         okv = _matches(val, exp)
+                        if not okv and tm.contains(val, lambda x: x.op == "call" and (tm.callee_name(x) or "").startswith("set_operations.") and not any(k in (tm.callee_name(x) or "") for k in ("_merge_np", "_merge_many"))):
+                            # the value goes through a helper of the module that this rule cannot read (a cdef function is not
+                            # part of the Python-level program): what it returns is not decided here
+                            rep.undecided("R-C08-d", where, cons, "the result passes through a module-level helper the walker does not read: %s" % tm.show(val)[:70])
+                            continue
                         rep.check(okv, "R-C08-d", where, cons, "returns %s" % tm.show(val)[:60], "returns %s, documented behaviour is %s" % (tm.show(val)[:80], exp[0]))
     return n
 
@@ -636,9 +655,21 @@ def check_callers(rep, prog):
         a = calls[0]["args"]
         left_is_self = len(a) >= 2 and a[0].op == "call" and tm.callee_name(a[0]) == ".get" and a[0].args[0].args[0] == tm.param("self")
         right_is_other = len(a) >= 2 and tm.contains(a[1], lambda x: x.op == "dval" and x.args[0] == tm.param("other"))
-        rep.check(left_is_self and right_is_other, "R-C08-g", "%s@%d" % (fi.fq, calls[0].line), "%s(self's rows, other's rows)" % op,
-                  "receiver's rows on the left", "operands are %s" % [tm.show(x)[:40] for x in a[:2]],
-                  witness={"inputs": "a.difference_update(b) computes b - a"} if op == "difference" else None)
+        is_get_self = lambda x: x.op == "call" and tm.callee_name(x) == ".get" and x.args[0].args[0] == tm.param("self")
+        from_other = lambda x: tm.contains(x, lambda y: y == tm.param("other"))
+        swapped = len(a) >= 2 and is_get_self(a[1]) and from_other(a[0]) and not is_get_self(a[0])
+        cons_g = "%s(self's rows, other's rows)" % op
+        w_g = "%s@%d" % (fi.fq, calls[0].line)
+        if left_is_self and right_is_other:
+            rep.proved("R-C08-g", w_g, cons_g, "receiver's rows on the left")
+        elif swapped:
+            rep.violated("R-C08-g", w_g, cons_g, "the operands are exchanged: %s" % [tm.show(x)[:40] for x in a[:2]], witness={"inputs": "a.difference_update(b) computes b - a"} if op == "difference" else None)
+        elif left_is_self and len(a) >= 2 and from_other(a[1]):
+            # the receiver's rows are on the left; the right operand comes from `other` through a helper / generator this rule
+            # does not read element by element
+            rep.undecided("R-C08-g", w_g, cons_g, "right operand derives from `other`, but not recognisably as its row ids: %s" % tm.show(a[1])[:60])
+        else:
+            rep.undecided("R-C08-g", w_g, cons_g, "operands are %s" % [tm.show(x)[:40] for x in a[:2]])
     return n
 
 
